@@ -70,15 +70,30 @@ func H_SitesAgree() {
 	}
 	rc.MarkBootstrapped(tres.NS, tres.TypeA)
 	term := symTerm()
-	q := resource.LabelQuery{Terms: []resource.LabelTerm{term}}
-	direct, err := st.List(ctx, kind(), state.WithLabelQuery(resource.RawLabelQuery(q)))
+	qs := resource.LabelQueries{{Terms: []resource.LabelTerm{term}}}
+	// queries are OR-ed: optionally a second query - one without terms (matches everything) or "key absent"
+	switch verif.Choose("secondQuery", 3) {
+	case 1:
+		qs = append(qs, resource.LabelQuery{})
+		verif.Cover("or with an empty query")
+	case 2:
+		qs = append(qs, resource.LabelQuery{Terms: []resource.LabelTerm{{Key: "k", Op: resource.LabelOpExists, Invert: true}}})
+		verif.Cover("or of two queries")
+	}
+	var lopts []state.ListOption
+	wopts := []state.WatchKindOption{state.WithBootstrapContents(true)}
+	for _, q := range qs {
+		lopts = append(lopts, state.WithLabelQuery(resource.RawLabelQuery(q)))
+		wopts = append(wopts, state.WatchWithLabelQuery(resource.RawLabelQuery(q)))
+	}
+	direct, err := st.List(ctx, kind(), lopts...)
 	verif.Assert(err == nil, "direct list")
-	viaRPC, err := remote.List(ctx, kind(), state.WithLabelQuery(resource.RawLabelQuery(q)))
+	viaRPC, err := remote.List(ctx, kind(), lopts...)
 	verif.Assert(err == nil, "remote list")
-	cached, err := rc.List(ctx, kind(), state.WithLabelQuery(resource.RawLabelQuery(q)))
+	cached, err := rc.List(ctx, kind(), lopts...)
 	verif.Assert(err == nil, "cached list")
 	events := make(chan state.Event, 16)
-	verif.Assert(st.WatchKind(ctx, kind(), events, state.WithBootstrapContents(true), state.WatchWithLabelQuery(resource.RawLabelQuery(q))) == nil, "filtered watch")
+	verif.Assert(st.WatchKind(ctx, kind(), events, wopts...) == nil, "filtered watch")
 	verif.Quiesce()
 	boot := map[string]bool{}
 	for len(events) > 0 {
@@ -89,7 +104,7 @@ func H_SitesAgree() {
 	}
 	matched := 0
 	for _, r := range res {
-		want := q.Matches(*r.Metadata().Labels())
+		want := qs.Matches(*r.Metadata().Labels())
 		id := r.Metadata().ID()
 		verif.Assert(has(direct, id) == want, "List returns exactly the resources satisfying the selector")
 		verif.Assert(has(viaRPC, id) == want, "the selector means the same after translation over gRPC")
